@@ -66,6 +66,22 @@ Fixpoint twalkd (stk : list node) (t : node) (parts : list name) : res (option n
       end
     end
   end.
+(* the dot-free path a dotted path stands for: below the root "." is dropped and ".." drops the
+   component before it; at the root (nothing passed yet) both are kept as ordinary names, which
+   is how the root directory, holding no dot entries, treats them.  [acc] = components kept so
+   far, innermost first *)
+Fixpoint lexnorm (acc : list name) (parts : list name) : list name :=
+  match parts with
+  | [] => rev acc
+  | h :: r =>
+    match acc with
+    | [] => lexnorm [h] r
+    | _ :: acc' =>
+      if FatNames.Model.beq (upper h) [46] then lexnorm acc r
+      else if FatNames.Model.beq (upper h) [46; 46] then lexnorm acc' r
+      else lexnorm (h :: acc) r
+    end
+  end.
 (* the nodes of a tree *)
 Inductive reach (root : node) : node -> Prop :=
   | reach_root : reach root root
